@@ -89,6 +89,19 @@ def main(argv):
             bcases.append({'file': b['file'], 'cfg': cfg})
         pairs.append(variants)
     bio, bmo = BC.run_builds(bcases, timeout=3000)
+    # what the proven Comment model renders for each copyright text alone (op 108): both shell files must begin with exactly that
+    from lib import run_model
+    cps = sorted({c['cfg']['copyright'] for c in bcases})
+    cp_render = dict(zip(cps, (T.ds(v[1]) for v in run_model([[108, G.content_sx(['s', x]), ''] for x in cps]))))
+
+    def carries_copyright(files, cp):
+        want = cp_render[cp].split('\n')[:-1] if cp_render[cp] else []
+        for f in files[:2]:
+            got = f[1].split('\n')
+            if got[:len(want)] != want or got[len(want):len(want) + 2] != ['//', '// Advanced Shell']:
+                k = next((n for n, (a, b) in enumerate(zip(got, want)) if a != b), len(want))
+                return f'{f[0]} line {k + 1}: {got[k] if k < len(got) else None!r} where the text demands {(want + ["//", "// Advanced Shell"])[k]!r}'
+        return None
 
     def noncomment(files):
         return [[f[0], [l for l in physical_lines(f[1]) if not l.startswith('//')]] for f in files]
@@ -112,6 +125,12 @@ def main(argv):
                     la, lb = next((a[1], b2[1]) for a, b2 in zip(base, nc) if a != b2)
                     extra = [x for x in lb if x not in la][:2] + [x for x in la if x not in lb][:2]
                     problem, j = f'changing only copyright/creator information changed non-comment lines of {fn}: {extra}', v
+                    break
+        if not problem and outs[0][0] == 'ok':
+            for v, o in zip(variants, outs):
+                bad_cp = carries_copyright(o[1], bcases[v]['cfg']['copyright'])
+                if bad_cp:
+                    problem, j = f'the leading comment of the shell files does not carry the configured copyright text: {bad_cp}', v
                     break
         if not problem:
             for v in variants:
